@@ -741,6 +741,10 @@ func impurePrimitive(obj *types.Func) string {
 	case "net", "net/http":
 		return obj.Pkg().Path() + "." + obj.Name()
 	}
+	// waiting is the effect, whatever library does it (fortio.org/terminal.SleepWithContext)
+	if strings.HasPrefix(obj.Name(), "Sleep") {
+		return obj.Pkg().Path() + "." + obj.Name()
+	}
 	return ""
 }
 
